@@ -112,7 +112,7 @@ pub fn run(o: &Opts, _deck: &str) -> String {
     let mut rng = Rng::new(o.seed, 16);
     // fixed corpus: empty, whitespace only, the recorded defects' witnesses
     for k in KINDS {
-        for s in ["", " ", "\t\n", "\u{a0}", "é", "\u{301}", "A\u{301}", "♠", "A♠", "a♣", "😀", "As Ks ~ As Qd Jh", "DEAL é", "DEAL", "CALL", "CALL x", "RAISE 32768", "RAISE -32769", "raıse 5", "P", "P-1", "ﬀ", "F::", "::", "P::+a", "P::-1", "T::10000000000000000", "\u{1e97}", "\u{fb03}", "\u{fb04}::0", "\u{fb03}::1f", "AsAs", "As As", "2c2d ~ 2h2s3c3d3h3s"] {
+        for s in ["", " ", "\t\n", "\u{a0}", "é", "\u{301}", "A\u{301}", "♠", "A♠", "a♣", "😀", "As Ks ~ As Qd Jh", "DEAL é", "DEAL", "CALL", "CALL x", "RAISE 32768", "RAISE -32769", "raıse 5", "P", "P-1", "ﬀ", "F::", "::", "P::+a", "P::-1", "T::10000000000000000", "P18446744073709551615", "P18446744073709551616", "P99999999999999999999999", "P00000000000000000000001", "\u{131}", "\u{fb01}", "\u{149}", "chec\u{fb02}", "cal\u{131} 5", "\u{1f0}", "\u{17f}hove 5", "\u{1e97}", "\u{fb03}", "\u{fb04}::0", "\u{fb03}::1f", "AsAs", "As As", "2c2d ~ 2h2s3c3d3h3s"] {
             out.line(&line(k, s));
         }
     }
